@@ -20,7 +20,7 @@ PROBES = ['step_converged_to_tolerance', 'step_not_converged_budget', 'soft_add'
 
 def plan(tier):
     if tier == 'thorough':
-        return {'n': 150000, 'chunk': 200, 'timeout': 300, 'selftest': 40, 'budget_s': 7200, 'minimize_s': 300}
+        return {'n': 150000, 'chunk': 200, 'timeout': 300, 'selftest': 40, 'budget_s': 3000, 'minimize_s': 300}
     return {'n': 2500, 'chunk': 50, 'timeout': 300, 'selftest': 10, 'budget_s': 900, 'minimize_s': 120}
 
 
